@@ -465,7 +465,8 @@ def trim_describe(boxes):
 # ==================================================================================================================
 # 3. clean_by_distance_to_points
 
-PT = {"A": (1, (20.0, 20.0, 20.0)), "B": (1, (20.0, 27.0, 20.0)), "C": (2, (30.0, 12.0, 8.0))}
+# D is a reference point of tomogram 2 with exactly the coordinates of A (tomogram 1): identical x,y,z in two tomograms
+PT = {"A": (1, (20.0, 20.0, 20.0)), "B": (1, (20.0, 27.0, 20.0)), "C": (2, (30.0, 12.0, 8.0)), "D": (2, (20.0, 20.0, 20.0))}
 RADII = [0.9, 1.6]
 DIST_KINDS = ["N1A", "M1A", "FAR1", "N1B", "X1C", "N2C", "M2C", "X2A", "SN1A", "SF1A", "T3A"]
 DIST_REDUCED = ["N1A", "M1A", "FAR1", "X2A", "N2C", "SN1A"]
@@ -834,7 +835,7 @@ def families(tier, seed):
                                "survivor-altered", "row-duplicated", "row-unknown")))
 
     # ---- distance to points -------------------------------------------------------------------------------------
-    point_sets = [(), ("A",), ("B",), ("A", "B"), ("C",), ("A", "C"), ("B", "C"), ("A", "B", "C")]
+    point_sets = [(), ("A",), ("B",), ("A", "B"), ("C",), ("A", "C"), ("B", "C"), ("A", "B", "C"), ("A", "D"), ("D", "A"), ("D",), ("C", "D", "B", "A")]
     dcfgs = [(ps, r, inpl) for ps in point_sets for r in RADII for inpl in (True, False)]
     every = list(range(len(dcfgs)))
     # one configuration per reference-point set, radius and inplace alternating
